@@ -186,14 +186,29 @@ func (e *busloadExec) Do(line string) string {
 		ifs = append(ifs, ni)
 	}
 	ids := map[*acmelib.Message]int{}
+	var lates []func()
 	type spec struct{ size, cyc int }
 	var specs []spec
 	for j := 0; j < n; j++ {
 		size, cyc := atoi(f[4+2*j]), atoi(f[5+2*j])
 		refused := size >= 1000
 		size %= 1000
+		// every other message starts with another size and cycle time and gets the final ones only
+		// after the load has been asked for once (see `observe` below): the load is a function of
+		// the CURRENT model, not of what it was when somebody first looked
+		late := j%2 == 0 && !refused
 		m := acmelib.NewMessage(sprintf("m%d", j), acmelib.MessageID(j), size)
 		m.SetCycleTime(cyc)
+		if late {
+			m = acmelib.NewMessage(sprintf("m%d", j), acmelib.MessageID(j), (size+3)%9)
+			m.SetCycleTime(cyc + 7)
+			lates = append(lates, func() {
+				if err := m.UpdateSizeByte(size); err != nil {
+					panic(err)
+				}
+				m.SetCycleTime(cyc)
+			})
+		}
 		if refused {
 			t, err := acmelib.NewIntegerSignalType("t8", 8, false)
 			if err != nil {
@@ -215,6 +230,44 @@ func (e *busloadExec) Do(line string) string {
 		}
 		ids[m] = j
 		specs = append(specs, spec{size, cyc})
+	}
+	// observe, then edit: the bus is looked at (load, listings, texts) while it still has another
+	// baud rate, late messages with other sizes / cycle times and a further interface that sends two
+	// messages; then the baud rate and the late messages get the values of the line and the further
+	// interface stops sending (RemoveAllSentMessages) — or, for a line without messages, every
+	// interface is taken off the bus (RemoveAllNodeInterfaces).  The first answers are thrown away.
+	{
+		gn := acmelib.NewNode("ghost2", acmelib.NodeID(78), 1)
+		gi := gn.Interfaces()[0]
+		ga := acmelib.NewMessage("ghost2_a", acmelib.MessageID(904), 8)
+		ga.SetCycleTime(1)
+		gb := acmelib.NewMessage("ghost2_b", acmelib.MessageID(905), 3)
+		attached := gi.AddSentMessage(ga) == nil && gi.AddSentMessage(gb) == nil && bus.AddNodeInterface(gi) == nil
+		other := 123456
+		if baud == other {
+			other = 500000
+		}
+		bus.SetBaudrate(other)
+		observe := func() {
+			_, _, _ = acmelib.CalculateBusLoad(bus, 1+len(lates))
+			for _, ni := range bus.NodeInterfaces() {
+				_ = ni.SentMessages()
+				_ = ni.String()
+			}
+			_ = bus.String()
+		}
+		observe()
+		for _, f := range lates {
+			f()
+		}
+		bus.SetBaudrate(baud)
+		if attached {
+			gi.RemoveAllSentMessages()
+		}
+		if n == 0 {
+			observe()
+			bus.RemoveAllNodeInterfaces()
+		}
 	}
 	// messages that were sent once and are NOT sent any more must not be billed: a message with a
 	// static CAN-ID and a plain one are added to an interface and removed again before the load is
